@@ -63,6 +63,7 @@ Judge(e) ==
         \* outcome table; a digest reaches the GPG boundary iff the play is acceptable (with an unusable
         \* revocation list the order of the two verifications is not prescribed: digest or none)
         tab |-> exp = "any" \/ (exp = e.out /\ (lw # "" \/ ((pr = "ok") <=> (e.digest # ""))))]
+\* (hence: a play is never accepted unless a digest of it was checked against its signature)
 
 Constrained(e) == Why(PlayOf(e), e.via) = "" /\ e.digest # ""
 
@@ -90,6 +91,7 @@ JoinStr(S) == IF S = {} THEN "" ELSE LET x == CHOOSE x \in S : TRUE IN
               x \o (IF S \ {x} = {} THEN "" ELSE "+") \o JoinStr(S \ {x})
 
 DiagTable(e) ==
+    IF e.out = "ok" /\ e.digest = "" /\ Judge(e).exp = "ok" THEN "Table:" \o e.via \o ":accepted-without-digest-check" ELSE
     "Table:" \o e.via \o ":expected-" \o Judge(e).exp \o ":" \o
     (IF Why(PlayOf(e), e.via) # "" THEN Why(PlayOf(e), e.via)
      ELSE IF Judge(e).lwhy # "" THEN "revocation-list-" \o Judge(e).lwhy
